@@ -16,6 +16,7 @@
 #include "vf.h"
 
 #include <dlfcn.h>
+#include <errno.h>
 #include <fenv.h>
 #include <link.h>
 #include <locale.h>
@@ -219,6 +220,23 @@ static void step(prog_t *t) {
     API(A_strings, e = h3ToString(h, buf, sizeof buf));
     API(A_strings, e = stringToH3(buf, &h2));
     mixh(t, &h2, 8);
+    {
+        /* errno is per-thread state of the C library that survives between calls: the same parse with ERANGE left behind by some
+         * earlier call (here: set by hand) must give the same answer; tried on the cell's own text and, now and then, on the
+         * largest value */
+        const char *txt = vf_below(r, 16) ? buf : "ffffffffffffffff";
+        H3Index a0 = 0, a1 = 0;
+        H3Error e0, e1;
+        errno = 0;
+        API(A_strings, e0 = stringToH3(txt, &a0));
+        errno = ERANGE;
+        API(A_strings, e1 = stringToH3(txt, &a1));
+        errno = 0;
+        if (e0 != e1 || a0 != a1) {
+            if (!t->fe_bad) snprintf(t->fe_msg, sizeof t->fe_msg, "stringToH3(\"%s\") gives rc=%u with errno clear and rc=%u with errno = ERANGE on entry", txt, e0, e1);
+            t->fe_bad++;
+        }
+    }
     const char *es;
     API(A_describeH3Error, es = describeH3Error((H3Error)vf_below(r, 18)));
     mixh(t, es, strlen(es));
@@ -362,7 +380,7 @@ static void account(const prog_t *t, int with_overlap) {
     char nm[96];
     vf_add("fp_environment.api_returns_checked", 0);
     for (int a = 0; a < A_N; a++) vf_add("fp_environment.api_returns_checked", t->calls[a]);
-    if (t->fe_bad) vf_violation("fp-environment", "library", vf_mix((uint64_t)t->fe_msg[0] * 131 + (uint64_t)t->fe_msg[5]) ^ 0xFE, "", "%s (%" PRId64 " such returns in one program)", t->fe_msg, t->fe_bad);
+    if (t->fe_bad) vf_violation("thread-environment", "library", vf_mix((uint64_t)t->fe_msg[0] * 131 + (uint64_t)t->fe_msg[5]) ^ 0xFE, "", "%s (%" PRId64 " such returns in one program)", t->fe_msg, t->fe_bad);
     for (int a = 0; a < A_N; a++) {
         snprintf(nm, sizeof nm, "calls.%s", ANAME[a]);
         vf_add(nm, t->calls[a]);
